@@ -80,6 +80,14 @@ func syncCall(call *ast.CallExpr) (recv ast.Expr, typ, method string) {
 	return nil, "", ""
 }
 
+// addrOf: the identity of the mutex (pointer), as an interface value.
+func addrOf(recv ast.Expr) ast.Expr {
+	if _, isPtr := info.TypeOf(recv).(*types.Pointer); isPtr {
+		return recv
+	}
+	return &ast.UnaryExpr{Op: token.AND, X: recv}
+}
+
 func sel(x ast.Expr, name string) ast.Expr {
 	return &ast.SelectorExpr{X: x, Sel: ast.NewIdent(name)}
 }
@@ -98,13 +106,13 @@ func rewriteCall(call *ast.CallExpr, deferred bool) *ast.CallExpr {
 	case "sync.Mutex", "sync.RWMutex":
 		switch m {
 		case "Lock":
-			return rt("Lock", newSite(call.Pos(), typ+".Lock"), sel(recv, "TryLock"), sel(recv, "Lock"))
+			return rt("Lock", newSite(call.Pos(), typ+".Lock"), addrOf(recv), sel(recv, "TryLock"), sel(recv, "Lock"))
 		case "RLock":
-			return rt("Lock", newSite(call.Pos(), typ+".RLock"), sel(recv, "TryRLock"), sel(recv, "RLock"))
+			return rt("RLock", newSite(call.Pos(), typ+".RLock"), addrOf(recv), sel(recv, "TryRLock"), sel(recv, "RLock"))
 		case "Unlock":
-			return rt("Unlock", newSite(call.Pos(), typ+".Unlock"), sel(recv, "Unlock"))
+			return rt("Unlock", newSite(call.Pos(), typ+".Unlock"), addrOf(recv), sel(recv, "Unlock"))
 		case "RUnlock":
-			return rt("Unlock", newSite(call.Pos(), typ+".RUnlock"), sel(recv, "RUnlock"))
+			return rt("RUnlock", newSite(call.Pos(), typ+".RUnlock"), addrOf(recv), sel(recv, "RUnlock"))
 		}
 	case "sync.Once":
 		if m == "Do" && len(call.Args) == 1 {
@@ -135,7 +143,7 @@ func needsYield(st ast.Stmt) (bool, string) {
 			return false
 		case *ast.CallExpr:
 			if _, typ, m := syncCall(x); typ != "" {
-				if strings.HasPrefix(typ, "sync/atomic.") || typ == "sync.Map" {
+				if strings.HasPrefix(typ, "sync/atomic.") || (strings.HasPrefix(typ, "sync.") && typ != "sync.Mutex" && typ != "sync.RWMutex" && typ != "sync.Once") {
 					found, what = true, typ+"."+m
 					return false
 				}
